@@ -30,6 +30,8 @@ LAYOUTS_RR = [(0, 0), (1, 0), (1, 1)]
 LAYOUT_NOT_RR = (0, 1)
 BASES = (10, 16, 2)
 PARTIAL_OPTS = [(0, 0, 10, 0), (1, 1, 16, 1), (1, 0, 2, 0), (0, 1, 10, 1)]
+# what the k-th poisoned variant of a buffer goes for first (if the struct has such a leaf)
+POISON_PREFER = ["array", "array_of_structs", "bcd", "requires", "nested", "struct_requires", "bits"]
 FINDING_SKIP_KEY = "skip-field-determines-layout-of-emitted-field"
 FINDING_ARRAY_KEY = "multiline-array-elements-not-comma-separated"
 # fixed in /repo (f572d62, b3c9cb3): the pinned inputs stay in the run, nothing is routed to them
@@ -90,7 +92,8 @@ static std::string ShowField(F f) {
 DRIVER_RUN = r"""
 template <class Make, class Dump>
 static void RunOne(Make make, Dump dump, int multiline, int comments, int base, int grouping,
-                   const std::string &bytes, bool have_text, const std::string &text_override) {
+                   const std::string &bytes, bool have_text, const std::string &text_override,
+                   bool want_dump = false) {
   size_t n = bytes.size();
   std::unique_ptr<unsigned char[]> b1(new unsigned char[n]);
   std::unique_ptr<unsigned char[]> b2(new unsigned char[n]);
@@ -105,7 +108,22 @@ static void RunOne(Make make, Dump dump, int multiline, int comments, int base, 
   if (multiline) o = o.WithIndent("  ");
   if (!ok) {
     // allow_partial_output: "WriteToString() should never CHECK-fail"; readable atomic fields only
-    std::cout << " ptext=" << Hex(::emboss::WriteToString(v, o.WithAllowPartialOutput(true))) << "\n";
+    // (WriteToString WITHOUT the flag is documented to CHECK-fail on such a view: never called)
+    std::cout << " ptext=" << Hex(::emboss::WriteToString(v, o.WithAllowPartialOutput(true))) << std::flush;
+    if (want_dump) {
+      // which leaves the real accessors can read (`!ok` otherwise): the buffer has its full size
+      std::string d;
+      dump(v, "", &d);
+      std::cout << " d1=" << Hex(d) << std::flush;
+      // the partial text read back into a zeroed buffer (compared with the reader model only:
+      // the statement makes no claim about re-reading the text of a view that is not Ok)
+      auto w = make(b2.get(), n);
+      bool upd = ::emboss::UpdateFromText(w, ::emboss::WriteToString(v, o.WithAllowPartialOutput(true)));
+      std::string d2;
+      dump(w, "", &d2);
+      std::cout << " upd=" << upd << " d2=" << Hex(d2);
+    }
+    std::cout << "\n";
     return;
   }
   std::string text = have_text ? text_override : ::emboss::WriteToString(v, o);
@@ -167,10 +185,11 @@ def driver_source(mod, header_name, tops):
                "    std::istringstream in(line);\n    std::string name, hex; int m, c, b, g;\n"
                "    in >> name >> m >> c >> b >> g >> hex;\n    std::string bytes = Unhex(hex);\n"
                "    std::string thex; bool have_text = static_cast<bool>(in >> thex);\n"
+               "    bool want_dump = have_text && thex == \"+dump\";\n    if (want_dump) have_text = false;\n"
                "    std::string text_override = have_text ? Unhex(thex) : std::string();\n    if (false) {}")
     for st in tops:
         src.append('    else if (name == "%s") RunOne([](unsigned char *d, size_t n) { return ::c06::%s::Make%sView(d, n); },\n'
-                   '        [](const auto &v, const std::string &p, std::string *o) { Dump_%s(v, p, o); }, m, c, b, g, bytes, have_text, text_override);'
+                   '        [](const auto &v, const std::string &p, std::string *o) { Dump_%s(v, p, o); }, m, c, b, g, bytes, have_text, text_override, want_dump);'
                    % (st.name, mod.name, st.name, st.name))
     src.append('    else std::cout << "bad-op\\n";\n  }\n  return 0;\n}')
     return "\n".join(src)
@@ -287,6 +306,19 @@ def compare_tree(node, parsed, orders, where, problems, int_checks, partial=Fals
             problems.append("%s: expected an array, got %s" % (where, parsed[0]))
             return
         idxs = [i for i, _ in got]
+        if partial == "content":
+            # allow_partial_output on a full-size buffer: exactly the readable elements, each at its
+            # own index (explicit `[i]:` markers and running indices of the text are resolved by the
+            # parser: a value read at the wrong index shows up here)
+            want_idx = [i for i, it in enumerate(items) if it[0] != "unreadable"]
+            if idxs != want_idx:
+                problems.append("%s: array elements at indices %r in the text, expected exactly %r (%d elements, "
+                                "unreadable: %r)" % (where, idxs[:24], want_idx[:24], len(items),
+                                                     [i for i, it in enumerate(items) if it[0] == "unreadable"][:12]))
+                return
+            for i, p in got:
+                compare_tree(items[i], p, orders, "%s[%d]" % (where, i), problems, int_checks, partial)
+            return
         if partial:
             # allow_partial_output: unreadable elements are left out; what is there must be right
             if idxs != sorted(set(idxs)) or any(i >= len(items) for i in idxs):
@@ -310,7 +342,7 @@ def compare_tree(node, parsed, orders, where, problems, int_checks, partial=Fals
 
 
 def compare_struct(tree, stname, parsed, orders, where, problems, int_checks, partial=False):
-    real = [(n, x) for n, x in tree if x[0] != "comment"]
+    real = [(n, x) for n, x in tree if x[0] not in ("comment", "unreadable")]
     if parsed[0] == "empty":
         got = []
     elif parsed[0] == "struct":
@@ -325,7 +357,7 @@ def compare_struct(tree, stname, parsed, orders, where, problems, int_checks, pa
         pos = {n: i for i, n in enumerate(orders[stname])}
         want = sorted(want, key=lambda n: pos.get(n, 1 << 30))
     names = [n for n, _ in got]
-    if partial:
+    if partial is True:
         it = iter(want)
         if not all(any(n == w for w in it) for n in names):
             problems.append("%s: field names in a partial text %r are not a subsequence of %r" % (where, names, want))
@@ -367,13 +399,20 @@ def wval_tokens(node, parsed, orders):
         return ["i", "i64", str(node[1])]
     if kind == "array":
         items = node[1]
+        # ("unreadable", scalar): an atomic element that is not Ok (allow_partial_output) = `u`
+        written = [it for it in items if it[0] != "unreadable"]
         got = [] if parsed is None or parsed[0] != "array" else [x for _, x in parsed[1]]
-        if parsed is not None and len(got) != len(items):
+        if parsed is not None and len(got) != len(written):
             raise NoWval()
-        asc = bool(items) and items[0][0] == "scalar" and items[0][1].kind in ("uint", "int") and items[0][1].bits == 8
+        asc = bool(written) and written[0][0] == "scalar" and written[0][1].kind in ("uint", "int") and written[0][1].bits == 8
         out = ["a", "1" if asc else "0", str(len(items))]
-        for k, it in enumerate(items):
+        k = 0
+        for it in items:
+            if it[0] == "unreadable":
+                out.append("u")
+                continue
             out += wval_tokens(it, got[k] if parsed is not None else None, orders)
+            k += 1
         return out
     if kind == "struct":
         fields = list(node[1])
@@ -384,6 +423,9 @@ def wval_tokens(node, parsed, orders):
         got = {} if parsed is None or parsed[0] != "struct" else dict(parsed[1])
         out = ["s", str(len(fields))]
         for n, x in fields:
+            if x[0] == "unreadable":
+                out += [I.hexs(n), "u"]
+                continue
             out += [I.hexs(n), "1" if x[0] == "comment" else "0"]
             out += wval_tokens(x, got.get(n) if parsed is not None else None, orders)
         return out
@@ -638,6 +680,144 @@ def judge_partial(prep, st, built, opt, trunc, line, stats):
     return problems
 
 
+def unreadable_labels(text):
+    """Labels of the `# <label>: UNREADABLE` comment lines of a multi-line text, in order: a field
+    name, or ('idx', i) for `# [i]: UNREADABLE` (the index is a number in the text's base)."""
+    import re
+    out = []
+    for ln in text.split("\n"):
+        m = re.match(r"^\s*# (.*): UNREADABLE\s*$", ln)
+        if not m:
+            if "UNREADABLE" in ln:
+                out.append(("?", ln.strip()))
+            continue
+        lab = m.group(1)
+        mi = re.match(r"^\[(.*)\]$", lab)
+        out.append(("idx", I.ref_value(mi.group(1))) if mi else lab)
+    return out
+
+
+def expected_unreadable(tree):
+    """(labels in tree order — sorted by the caller —, number of single-line arrays positions where
+    a written element follows a skipped one at an index that is not a multiple of 8)."""
+    labels, markers = [], [0]
+
+    def walk(node, name):
+        if node[0] == "unreadable":
+            labels.append(name)
+        elif node[0] == "struct":
+            for n, x in node[1]:
+                walk(x, n)
+        elif node[0] == "array":
+            for i, x in enumerate(node[1]):
+                walk(x, ("idx", i))
+                if i and node[1][i - 1][0] == "unreadable" and x[0] != "unreadable" and i % 8:
+                    markers[0] += 1
+    walk(("struct", tree), None)
+    return labels, markers[0]
+
+
+def judge_partial_content(prep, st, pb, opt, line, stats):
+    """allow_partial_output (doc/cpp-reference.md "allow_partial_output method"; expectations pinned
+    in compiler/back_end/cpp/testcode/requires_test.cc NotOkFieldsAreNotWritten /
+    NotOkArrayElementsAreNotWritten) on a full-size buffer whose view is not Ok *by content*
+    (pb = c06_gen.poison_buffer): no CHECK failure (the driver would have died); every unreadable
+    atomic field / array element is left out — with comments on it is mentioned in exactly one
+    `UNREADABLE` comment, with comments off the word never appears —; every other emitted field is
+    present, exactly once, at its place (array elements at their own index), with its intended
+    value; aggregates are always present; fields still stand after the fields they depend on."""
+    kv = dict(x.split("=", 1) for x in line.split(" ") if "=" in x)
+    m, c, b, g = opt
+    pre = "PARTIAL-CONTENT: "
+
+    def bump(k, n=1):
+        stats[k] = stats.get(k, 0) + n
+    bump("partial_by_content_cases")
+    for _path, kind, _detail, ctx in pb.poison:
+        bump("partial_by_content_kind_" + kind)
+        for cx in ctx or ["plain_struct_field"]:
+            bump("partial_by_content_in_" + cx)
+    if not pb.unreadable:
+        bump("partial_by_content_all_atomic_fields_readable")
+    if kv.get("ok") == "1":
+        return [pre + "the view is Ok() although %s" % "; ".join("%s: %s" % (p_, d) for p_, _k, d, _c in pb.poison)]
+    if "ptext" not in kv:
+        return [pre + "no text produced"]
+    text = I.unhex(kv["ptext"])
+    problems = []
+    if "d1" in kv:
+        # precondition of the clauses below, observed on the real accessors: exactly the poisoned
+        # leaves are not Ok, every other leaf reads its intended value
+        d1, intended = parse_dump(I.unhex(kv["d1"])), dict(pb.dump)
+        bad = [(k, intended.get(k), d1.get(k)) for k in sorted(set(intended) | set(d1)) if intended.get(k) != d1.get(k)]
+        if bad:
+            return [pre + "OKNESS: leaf %s reads %s through its accessor, intended %s" % (k, got, want)
+                    for k, want, got in bad[:4]]
+    labels, markers = expected_unreadable(pb.tree)
+    cnt = text.count("UNREADABLE")
+    if not c and cnt:
+        problems.append(pre + "UNREADABLE mentioned although comments are off")
+    if c and cnt != len(labels):
+        problems.append(pre + "comments are on: %d UNREADABLE comments for %d unreadable atomic fields %r" % (
+            cnt, len(labels), labels[:8]))
+    if c and m:
+        got = unreadable_labels(text)
+        if sorted(map(repr, got)) != sorted(map(repr, labels)):
+            problems.append(pre + "UNREADABLE comments name %r, the unreadable fields / elements are %r" % (
+                got[:8], labels[:8]))
+    if cnt:
+        bump("partial_by_content_unreadable_comment")
+    if (m, c) != LAYOUT_NOT_RR:
+        try:
+            parsed, _ = parse_text(text)
+        except ParseError as e:
+            return problems + [pre + "text does not parse: %s" % e]
+        sub = []
+        tree = attach_struct_names(st, pb.tree)
+        compare_struct(tree, st.name, parsed, prep["orders"], "", sub, [], partial="content")
+        if parsed[0] == "struct":
+            check_intended_order(st, [n for n, _ in parsed[1]], sub, st.name)
+        D.check_text(prep["dep_table"], D.find_struct(prep["dep_table"], st.name), parsed, "", sub)
+        problems += [pre + p_ for p_ in sub]
+        bump("partial_by_content_texts_parsed_and_compared")
+        if not m and markers:
+            bump("partial_by_content_single_line_element_after_skipped_one", markers)
+    return problems
+
+
+def add_partial_model_ops(prep, st, pb, opt, line, stats, wvals, rvals, shapes):
+    """Lean models on the text of a view that is not Ok by content (allow_partial_output): the writer
+    model (value tree with the unreadable leaves as `skip` nodes) must give the real text exactly
+    (`WVAL`), the reader model must accept / reject the text and write the values the real
+    UpdateFromText does (`RVAL`; static shapes, re-readable layouts)."""
+    kv = dict(x.split("=", 1) for x in line.split(" ") if "=" in x)
+    if "ptext" not in kv:
+        return
+    m, c, b, g = opt
+    text = I.unhex(kv["ptext"])
+    parsed = None
+    if (m, c) != LAYOUT_NOT_RR:
+        try:
+            parsed, _ = parse_text(text)
+        except ParseError:
+            return
+    try:
+        tree = ("struct", attach_struct_names(st, pb.tree), st.name)
+        toks = wval_tokens(tree, parsed, prep["orders"])
+        wvals.append(("WVAL %d %d %d %d %s %s" % (m, c, b, g, I.hexs("  ") if m else "-", " ".join(toks)), text,
+                      st.name, opt))
+        stats["partial_by_content_wval"] = stats.get("partial_by_content_wval", 0) + 1
+    except NoWval:
+        stats["wval_skipped_float"] = stats.get("wval_skipped_float", 0) + 1
+    if (m, c) != LAYOUT_NOT_RR and "upd" in kv and "d2" in kv:
+        n0 = len(rvals)
+        add_rval(rvals, shapes, stats, st, {"text": kv["ptext"], "upd": kv["upd"], "d2": kv["d2"]})
+        if len(rvals) > n0:
+            stats["partial_by_content_rval"] = stats.get("partial_by_content_rval", 0) + 1
+            if kv["upd"] == "1":
+                stats["partial_by_content_text_reread_ok"] = stats.get("partial_by_content_text_reread_ok", 0) + 1
+
+
 def judge(prep, st, built, opt, line, stats, int_checks, tok_texts, wvals=None):
     """Evaluates one driver answer against the property statement.
     Returns (problems, parsed tree or None, kv)."""
@@ -723,6 +903,8 @@ def run_modules(chk, mods, buffers_per_struct, r, model_ok, tier, compiler="clan
         preps.append((mod, origin, prep, tops, fixed))
     built_bins = cppbuild.compile_many(jobs, workers=8)
     opts = option_sets(tier, r)
+    rp = common.rng("C06-txt-poison")      # own stream: the Ok buffers are those of the undecorated run
+    n_poison = 1 if tier == "quick" else 2
     run_items, metas = [], []
     for (mod, origin, prep, tops, fixed), (binary, log) in zip(preps, built_bins):
         if binary is None:
@@ -762,6 +944,16 @@ def run_modules(chk, mods, buffers_per_struct, r, model_ok, tier, compiler="clan
                         for opt in PARTIAL_OPTS:
                             lines.append("%s %d %d %d %d %s" % ((st.name,) + opt + (bytes(built.buf[:k]).hex() or "-",)))
                             meta.append((st, built, opt, k))
+                # … and not Ok by content: the same bytes with an invalid BCD digit / a value that
+                # violates a `[requires]` in some leaves nothing else depends on
+                for pi in range(getattr(built, "poison_variants", n_poison)):
+                    pb = G.poison_buffer(rp, built, prefer=POISON_PREFER[pi % len(POISON_PREFER)]) \
+                        if getattr(built, "leaves", None) else None
+                    if pb is None:
+                        break
+                    for opt in PARTIAL_OPTS:
+                        lines.append("%s %d %d %d %d %s +dump" % ((st.name,) + opt + (bytes(pb.buf).hex() or "-",)))
+                        meta.append((st, pb, opt, "content"))
         run_items.append((binary, "\n".join(lines) + "\n"))
         metas.append((mod, origin, prep, meta, lines))
     results = run_many_long(run_items, workers=6)
@@ -780,7 +972,12 @@ def run_modules(chk, mods, buffers_per_struct, r, model_ok, tier, compiler="clan
                        "expected": "no sanitizer report / failed CHECK in text output or input"}
                 rec.update(line_fields(bad))
                 if bad in lines:
-                    st_bad = meta[lines.index(bad)][0]
+                    st_bad, built_bad = meta[lines.index(bad)][:2]
+                    if getattr(built_bad, "poison", None):
+                        rec["not_ok_by_content"] = [{"leaf": p_, "kind": k_, "how": d_, "context": c_}
+                                                    for p_, k_, d_, c_ in built_bad.poison]
+                        rec["ok_buffer"] = bytes(built_bad.base.buf).hex()
+                        rec["allow_partial_output"] = True
                     rec["text"], order_problems = crash_text_order(one, prep["dep_table"], st_bad)
                     rec["observed"] += order_problems
                     rec["predicate_skip_locates_emitted"] = G.skip_locates_emitted(st_bad)
@@ -796,6 +993,27 @@ def run_modules(chk, mods, buffers_per_struct, r, model_ok, tier, compiler="clan
             if ans is None:
                 continue
             chk.count()
+            if trunc == "content":
+                pp = judge_partial_content(prep, st, built, opt, ans, stats)
+                chk.nontrivial("%s/%s/not-ok-by-content/%s/%r" % (mod.name, st.name, bytes(built.buf).hex(), opt))
+                if model_ok and not pp:
+                    add_partial_model_ops(prep, st, built, opt, ans, stats, wvals, rvals, shapes)
+                if pp:
+                    sig = (st.name, "content", pp[0][:60])
+                    if sig not in reported and sum(1 for x in reported if x[:2] == sig[:2]) < 3:
+                        reported.add(sig)
+                        kvp = dict(x.split("=", 1) for x in ans.split(" ") if "=" in x)
+                        chk.violation("input", {
+                            "part": "TXT", "origin": origin, "emb": prep["text"], "struct": st.name,
+                            "buffer": bytes(built.buf).hex(), "ok_buffer": bytes(built.base.buf).hex(),
+                            "not_ok_by_content": [{"leaf": p_, "kind": k_, "how": d_, "context": c_}
+                                                  for p_, k_, d_, c_ in built.poison],
+                            "options": dict(zip(("multiline", "comments", "base", "grouping"), opt)),
+                            "allow_partial_output": True, "text": I.unhex(kvp.get("ptext", "")), "observed": pp[:6],
+                            "expected": "with allow_partial_output: no CHECK failure; unreadable atomic fields / "
+                                        "array elements are left out (commented `UNREADABLE` iff comments are on); "
+                                        "every other field is present at its place with its value"})
+                continue
             if trunc is not None:
                 pp = judge_partial(prep, st, built, opt, trunc, ans, stats)
                 if pp:
